@@ -330,6 +330,26 @@ func (h *SexpHash) TypeCheckField(key Sexp, val Sexp) error {
 		if !ok {
 			return fmt.Errorf("%s has no field '%s' [err 2]", p.UserStructDefn.Name, k)
 		}
+		if _, isType := val.(*RegisteredType); isType {
+			// a type is its own Type(), so it would pass for a
+			// value of that type below
+			return fmt.Errorf("field %v.%v is %v, cannot assign the type '%v' itself",
+				p.UserStructDefn.Name, k, declaredTyp.SexpString(nil), val.SexpString(nil))
+		}
+		if arr, isArr := val.(*SexpArray); isArr && len(arr.Val) > 1 {
+			// an array is typed by its first element (and remembers
+			// that type when it grows): make sure the others agree.
+			first := arr.Val[0].Type()
+			for i, ele := range arr.Val[1:] {
+				if ele == SexpNull {
+					continue
+				}
+				if ety := ele.Type(); ety != first {
+					return fmt.Errorf("field %v.%v is %v, cannot assign an array whose element %d is '%v'",
+						p.UserStructDefn.Name, k, declaredTyp.SexpString(nil), i+1, ele.SexpString(nil))
+				}
+			}
+		}
 		obsTyp := val.Type()
 		if obsTyp == nil {
 			// allow certain types to be nil, e.g. [] and nil itself
